@@ -71,6 +71,13 @@ func (e *Exec) regKey(key, srt string) string {
 }
 
 // fieldKey returns the heap key for field f of the (named or anonymous) struct type owner.
+func fieldName(su *types.Struct, i int) string {
+	if su.Field(i).Name() == "_" {
+		return fmt.Sprintf("_blank%d", i)
+	}
+	return su.Field(i).Name()
+}
+
 func (e *Exec) fieldKey(owner types.Type, f *types.Var) string {
 	name := shortTypeName(owner)
 	if name == "" {
@@ -140,7 +147,7 @@ func (e *Exec) storeStructRaw(st *State, ref Term, t types.Type, val Term) {
 	su := structOf(t)
 	for i := 0; i < su.NumFields(); i++ {
 		k := e.fieldKey(t, su.Field(i))
-		e.heapSet(st, k, Store(e.heapGet(st, k), ref, e.S.Field(val, su.Field(i).Name())))
+		e.heapSet(st, k, Store(e.heapGet(st, k), ref, e.S.Field(val, fieldName(su, i))))
 	}
 	for i := 0; i < su.NumFields(); i++ {
 		if pred := e.P.Memo[e.fieldKey(t, su.Field(i))]; pred != nil && e.memoBusy == 0 {
@@ -165,7 +172,7 @@ func (e *Exec) storeStruct(st *State, ref Term, t types.Type, val Term) {
 	var memos []string
 	for i := 0; i < su.NumFields(); i++ {
 		k := e.fieldKey(t, su.Field(i))
-		e.heapSet(st, k, Store(e.heapGet(st, k), ref, e.S.Field(val, su.Field(i).Name())))
+		e.heapSet(st, k, Store(e.heapGet(st, k), ref, e.S.Field(val, fieldName(su, i))))
 		if e.P.Memo[k] != nil {
 			memos = append(memos, k)
 		}
